@@ -184,6 +184,7 @@ ParseReport do_parse(const TypeOps& t, const std::string& bytes, const Pres& pre
   }
   int why = sigsetjmp(g_escape_jmp, 0);
   if (why == 0) {
+    alloc_guard_parse_begin();
     g_escape_armed = true;
     switch (pres.kind) {
       case PK_API_ARRAY: pr.ok = t.parse_array(buf, bytes.size(), obj); break;
@@ -645,6 +646,13 @@ static void apply_fault(Rng& r, const TypeOps& t, const std::string& B, int kind
       f.bytes = replace_varint(B, p, nv);
       f.pos = (int)p;
       f.desc = sfmt("length varint at offset %zu: %llu -> %llu", p, (unsigned long long)ov, (unsigned long long)nv);
+      if (r.chance(1, 5)) {
+        // not a number at all: a varint that never ends within the 10 bytes a 64-bit value may take
+        size_t n = get_varint(B, p, ov);
+        if (!n) n = 1;
+        f.bytes = B.substr(0, p) + std::string(10 + r.below(3), '\xff') + std::string(1, (char)r.below(128)) + B.substr(p + n);
+        f.desc = sfmt("length varint at offset %zu replaced by an over-long (malformed) varint", p);
+      }
       out.push_back(f);
       break;
     }
@@ -717,9 +725,10 @@ static void apply_fault(Rng& r, const TypeOps& t, const std::string& B, int kind
     }
     case FK_RANDOM: {
       size_t n = r.below(65);
-      int style = (int)r.below(3);
+      int style = (int)r.below(4);
       for (size_t i = 0; i < n; ++i) {
-        if (style == 0) f.bytes.push_back((char)r.next());
+        if (style == 3) f.bytes.push_back((char)(r.chance(1, 8) ? r.next() : 0xff));  // runs of continuation bytes
+        else if (style == 0) f.bytes.push_back((char)r.next());
         else if (style == 1) f.bytes.push_back((char)(r.chance(1, 3) ? 0x80 | r.below(128) : r.below(128)));
         else f.bytes.push_back((char)(i % 3 == 0 ? ((1 + r.below(12)) << 3 | r.below(6)) : r.below(40)));
       }
